@@ -39,10 +39,42 @@ func (o c11Op) String() string {
 	return o.Kind
 }
 
+// c11OddEnv puts, for the length of one case, a few odd settings into this process's environment (a
+// WSL session's variables, another locale, unknown WTF_* values unique to the case): whatever the
+// engine reads from there, it reads it from every searching goroutine at once. Returns the undo.
+var c11EnvCase int
+
+func c11OddEnv(t *rapid.T) func() {
+	if !rapid.Bool().Draw(t, "odd-environment") {
+		return func() {}
+	}
+	c11EnvCase++
+	var undo []func()
+	for _, kv := range gen.HostileEnv(t, fmt.Sprint("case", c11EnvCase)) {
+		k, v, _ := strings.Cut(kv, "=")
+		old, had := os.LookupEnv(k)
+		os.Setenv(k, v)
+		stat.For("C11").Label("odd-environment:" + k)
+		undo = append(undo, func() {
+			if had {
+				os.Setenv(k, old)
+			} else {
+				os.Unsetenv(k)
+			}
+		})
+	}
+	return func() {
+		for i := len(undo) - 1; i >= 0; i-- {
+			undo[i]()
+		}
+	}
+}
+
 func TestC11_Programs(t *testing.T) {
 	rec := stat.For("C11")
 	rec.Rule("generated concurrent programs: G in [2,16] goroutines x K in [5,40] operations over one loaded database, operations drawn from SearchUniversal / cached search / monitored search / InvalidateCache / CleanupExpiredCache / GetCacheStats with random Gosched points and GOMAXPROCS in {2,4,16}; built with -race. Oracle: no race report; every search equals the answer computed sequentially beforehand (bitwise); monitor totals equal the number of monitored searches. Non-trivial = at least two goroutines issued a cached/monitored search for the same (query, options).")
 	rapid.Check(t, func(t *rapid.T) {
+		defer c11OddEnv(t)()
 		cmds, _ := gen.DB(t, gen.CmdOpts{Platforms: true}, []int{1, 1, 3, 8, 1}) // empty and one-entry databases too
 		db := gen.Load(t, cmds)
 		toks := gen.Tokens(cmds)
@@ -463,6 +495,7 @@ func TestC11_FirstUse(t *testing.T) {
 	rec := stat.For("C11")
 	rec.Rule("first-use contention: G in [2,16] goroutines released together by a barrier onto a fresh MonitoredDatabase, each doing 1-3 monitored / cached searches, repeated for many fresh instances per case. Oracle: answers equal the sequential ones and the monitor totals equal the number of monitored searches (no increment lost while the series are being created).")
 	rapid.Check(t, func(t *rapid.T) {
+		defer c11OddEnv(t)()
 		cmds, _ := gen.DB(t, gen.CmdOpts{}, []int{0, 0, 2, 6, 0})
 		twin := gen.Load(t, cmds) // sequential answers come from a twin, so the databases under test stay untouched
 		toks := gen.Tokens(cmds)
@@ -474,7 +507,14 @@ func TestC11_FirstUse(t *testing.T) {
 			q = gen.Typo(t, rapid.SampledFrom(toks).Draw(t, "typo-word")) // answered by the typo fallback
 		}
 		opt := database.SearchOptions{Limit: 5, UseNLP: rapid.Bool().Draw(t, "nlp"), UseFuzzy: true}
-		want := rank(twin, twin.SearchUniversal(q, opt))
+		// the answer of a search run alone: taken before the goroutines start or, in half the cases, only after
+		// the first concurrent round - then the goroutines are the very first users of whatever the process
+		// keeps across databases (package-level memos, once-guards, scratch tables)
+		lateRef := rapid.Bool().Draw(t, "reference-after-first-round")
+		var want []rankItem
+		if !lateRef {
+			want = rank(twin, twin.SearchUniversal(q, opt))
+		}
 		path := gen.WriteDB(t, cmds)
 		defer os.Remove(path)
 		// some fresh instances come from main + notebook files (the way the CLI loads), not from one file
@@ -504,6 +544,11 @@ func TestC11_FirstUse(t *testing.T) {
 			var wg sync.WaitGroup
 			var mu sync.Mutex
 			var bad []string
+			type answer struct {
+				i, j int
+				got  []rankItem
+			}
+			var answers []answer
 			start := make(chan struct{})
 			for i := 0; i < g; i++ {
 				wg.Add(1)
@@ -518,17 +563,26 @@ func TestC11_FirstUse(t *testing.T) {
 							res = mdb.SearchWithOptionsAndMonitoring(q, opt)
 						}
 						got := rank(db, res)
-						if !rankEq(got, want) {
-							mu.Lock()
-							bad = append(bad, fmt.Sprintf("goroutine %d search %d: got %s, alone it answers %s", i, j, rankStr(got), rankStr(want)))
-							mu.Unlock()
-						}
+						mu.Lock()
+						answers = append(answers, answer{i, j, got})
+						mu.Unlock()
 					}
 				}(i)
 			}
 			close(start)
 			if !waitOrHang(&wg, 60*time.Second) {
 				t.Fatalf("monitored searches on a fresh database did not finish within 60 s (deadlock)\n goroutines:\n%s", dumpStacks())
+			}
+			if want == nil {
+				want = rank(twin, twin.SearchUniversal(q, opt))
+				if want == nil {
+					want = []rankItem{}
+				}
+			}
+			for _, a := range answers {
+				if !rankEq(a.got, want) {
+					bad = append(bad, fmt.Sprintf("goroutine %d search %d: got %s, alone it answers %s", a.i, a.j, rankStr(a.got), rankStr(want)))
+				}
 			}
 			n := 0
 			for i := 0; i < g; i++ {
@@ -559,6 +613,7 @@ func TestC11_OptionTwins(t *testing.T) {
 	rec := stat.For("C11")
 	rec.Rule("option twins: G in [2,12] goroutines released by a barrier onto a fresh Cached/MonitoredDatabase (cold cache), all searching one query (ASCII re-spellings) under two option sets taken from a pool of one-field deltas (limit, boosts, pipeline, fuzzy, threshold, NLP, term cap, all-platforms, platforms, no-cross); pairs whose sequential answers differ are preferred; 10 fresh instances per case; built with -race. Oracle: every answer equals the sequential answer for its own option set. Non-trivial = the two option sets have different sequential answers.")
 	rapid.Check(t, func(t *rapid.T) {
+		defer c11OddEnv(t)()
 		cmds := rapid.SliceOfN(c04Cmd(), 4, 14).Draw(t, "cmds")
 		twin := gen.Load(t, cmds)
 		toks := gen.Tokens(cmds)
